@@ -35,10 +35,11 @@ Universes == <<
      areas |-> <<PAp(Simple(0, 1, 1), Simple(0, 4, 1), "a", 0), PAp(Simple(2, 3, 1), Simple(0, 4, 1), "c", 1),
                  PAp(Simple(9, 10, 1), Simple(8, 12, 1), "b", 2), SAp(Simple(3, 7, 1), 1), SAp(Simple(3, 7, 1), 0),
                  SAp(Simple(11, 12, 1), 1)>>],
-    (* 3: ring of 9.  areas meeting only across the origin, a reverse-strand origin-spanning gene, a subregion at the
-          record start, a later region with a subregion only *)
+    (* 3: ring of 9.  areas meeting only across the origin, a reverse-strand origin-spanning gene, an origin-spanning gene
+          that sticks out of the origin-spanning region, a subregion at the record start, a later region with a subregion only *)
     [L |-> 9, circ |-> TRUE,
-     genes |-> <<GP(CrossRev(8, 9, 1), <<"a">>, 3), GP(Simple(4, 5, 1), <<"b">>, 2), GP(Simple(1, 2, -1), <<>>, 1)>>,
+     genes |-> <<GP(CrossRev(8, 9, 1), <<"a">>, 3), GP(Simple(4, 5, 1), <<"b">>, 2), GP(Simple(1, 2, -1), <<>>, 1),
+                 GP(Cross(6, 9, 1), <<>>, 0)>>,
      areas |-> <<PAp(Cross(8, 9, 1), Cross(7, 9, 2), "a", 0), PAp(Simple(4, 5, 1), Simple(3, 6, 1), "b", 0),
                  SAp(Simple(0, 2, 1), 1), SAp(Simple(5, 7, 1), 0), PAp(Simple(4, 5, 1), Simple(3, 6, 1), "c", 1)>>] >>
 uni == Universes[u]
